@@ -29,6 +29,7 @@ from taskiq.serialization import _UnpickleableExceptionWrapper as Wrapper
 
 ZOO_NAME = "excser_zoo"
 ZOO_SRC = r'''
+import dataclasses
 import threading
 class ModLevel(Exception): pass
 class ModBase(BaseException): pass
@@ -94,6 +95,43 @@ def make_locals():
     class LocalMixin(Mixin, Exception): pass
     class LocalMixinArgs(MixinArgs, Exception): pass
     return Local, LocalSubVal, LocalSubTwoPos, LocalBase, LocalObj, LocalMixin, LocalMixinArgs
+# --- exception classes with VALUE-based equality (two distinct objects may compare equal): the cycle guard of
+# prepare_exception must go by object identity, never by ==/hash of the exception
+class EqHash(Exception):
+    """hand-written value equality with a matching hash"""
+    def __eq__(self, o): return type(o) is type(self) and o.args == self.args
+    def __hash__(self): return hash(type(self).__name__)
+class EqNoHash(Exception):
+    """__eq__ without __hash__: instances are unhashable"""
+    def __eq__(self, o): return type(o) is type(self) and o.args == self.args
+class EqTrue(Exception):
+    """equal to everything"""
+    def __eq__(self, o): return True
+    def __hash__(self): return 0
+class EqRaises(Exception):
+    """comparing it raises"""
+    def __eq__(self, o): raise RuntimeError("eq")
+    __hash__ = Exception.__hash__
+class SubEqVal(ValueError):
+    def __eq__(self, o): return isinstance(o, ValueError) and o.args == self.args
+    def __hash__(self): return 7
+@dataclasses.dataclass
+class DataExc(Exception):
+    """a dataclass exception: generated __eq__ over the fields, __hash__ = None"""
+    account: object
+    limit: object
+@dataclasses.dataclass(unsafe_hash=True)
+class DataHashExc(Exception):
+    code: object
+def make_eq_locals():
+    class LocalEq(Exception):
+        def __eq__(self, o): return type(o) is type(self) and o.args == self.args
+        def __hash__(self): return 1
+    @dataclasses.dataclass
+    class LocalData(Exception):
+        code: object
+    return LocalEq, LocalData
+def _dyn_eq(self, o): return type(o) is type(self) and o.args == self.args
 def shadow_fn(*a): raise SystemError("trap: a resolved non-exception object was CALLED")
 shadow_inst = 5
 '''
@@ -117,9 +155,14 @@ def setup(opts):
               "ExceptionGroup LookupError").split():
         CLASSES[n] = getattr(builtins, n)
     for n in ("ModLevel ModBase ModSubVal Rewrites KwOnly TwoPos ExtraPos SubRewrites SubTwoPos WithLock StrRaises "
-              "ReduceBad FalsyLen FalsyBool").split():
+              "ReduceBad FalsyLen FalsyBool EqHash EqNoHash EqTrue EqRaises SubEqVal DataExc DataHashExc").split():
         CLASSES[n] = getattr(ZOO, n)
+    LocalEq, LocalData = ZOO.make_eq_locals()
     CLASSES.update({
+        "LocalEq": LocalEq, "LocalData": LocalData,
+        "DynEq": type("DynEq", (Exception,), {"__module__": "nowhere.mod", "__eq__": ZOO._dyn_eq}),
+        "DynEqHere": type("DynEqHere", (KeyError,), {"__module__": ZOO_NAME, "__eq__": ZOO._dyn_eq,
+                                                      "__hash__": lambda self: 3}),
         "Nested": ZOO.Outer.Nested, "Deep": ZOO.Outer.Inner.Deep,
         "Local": Local, "LocalSubVal": LocalSubVal, "LocalSubTwoPos": LocalSubTwoPos, "LocalBase": LocalBase,
         "LocalMixin": LocalMixin, "LocalMixinArgs": LocalMixinArgs, "ModMixin": ZOO.ModMixin,
@@ -478,11 +521,25 @@ def run_case(case, opts):
         e.__suppress_context__ = bool(s.get("suppress"))
         links.append((s.get("cause"), s.get("context")))
     nodes = [measure_node(e) for e in excs]
+    # value equality between DISTINCT exception objects of the graph and hashability, measured with the real == / hash()
+    # before any round trip (facts for the evidence distribution only: neither the model nor the oracle reads them -
+    # "already on the path" is about the object, i.e. the node index)
+    for i, (n, e) in enumerate(zip(nodes, excs)):
+        n["eq_nodes"], n["eq_raises"] = [], False
+        for j, f in enumerate(excs):
+            if j != i:
+                ok, v = tryf(lambda: bool(e == f))
+                if not ok:
+                    n["eq_raises"] = True
+                elif v:
+                    n["eq_nodes"].append(j)
+        n["hashable"] = tryf(lambda: hash(e))[0]
     out = {"nodes": [], "enc": {}}
     for n, s in zip(nodes, specs):
         d = {k: n[k] for k in ("name", "qualname", "module", "has_module", "resolve", "accepts_text", "accepts_dict",
                                "recon_text", "recon_dict", "exc_rt_json", "exc_rt_pickle", "native", "native_same_class",
-                               "mro", "wrap_rt_json", "wrap_rt_pickle", "own_ctor_ok", "own_recon", "importable", "truthy")}
+                               "mro", "wrap_rt_json", "wrap_rt_pickle", "own_ctor_ok", "own_recon", "importable", "truthy",
+                               "eq_nodes", "eq_raises", "hashable")}
         d["args"] = [{k: v for k, v in m.items() if k not in ("repr_text", "str_text", "loaded_text", "loaded_dict")}
                      for m in n["ms"]]
         d["cause"], d["context"], d["suppress"] = s.get("cause"), s.get("context"), bool(s.get("suppress"))
